@@ -23,7 +23,7 @@ try:
     for p in props:
         env = dict(os.environ, PMH_EVIDENCE_DIR="/tmp/pmh-ev-seeded")
         r = subprocess.run([os.path.join(V, "bin", "pmhcheck"), p, "--src", sc, "--work", "scratch"], env=env, capture_output=True, text=True)
-        rules = sorted(set(re.findall(r"rule ([A-Za-z-]+) violated", r.stdout)))
+        rules = sorted(set(re.findall(r"rule ([A-Za-z0-9-]+) violated", r.stdout)))
         det[p] = {"exit": r.returncode, "rules": rules}
 finally:
     scratch.remove(sc)
